@@ -981,6 +981,16 @@ class IsoHybrid:
         self.secondary_gpt.parts[1].first_lba = current_extent * 4
         self.secondary_gpt.parts[1].last_lba = (current_extent * 4) + sector_count - 1
 
+        if self.mac and len(self.primary_gpt.apm_parts) == 3:
+            # The Apple Partition Map counts in 2048-byte blocks: the map
+            # itself, then the EFI image.
+            self.primary_gpt.apm_parts[0].start_block = 1
+            self.primary_gpt.apm_parts[0].block_count = 16
+            self.primary_gpt.apm_parts[0].data_count = 16
+            self.primary_gpt.apm_parts[1].start_block = current_extent
+            self.primary_gpt.apm_parts[1].block_count = sector_count // 4
+            self.primary_gpt.apm_parts[1].data_count = sector_count // 4
+
     def update_mac(self, current_extent, sector_count):
         # type: (int, int) -> None
         """
@@ -1006,3 +1016,8 @@ class IsoHybrid:
 
         self.secondary_gpt.parts[2].first_lba = current_extent * 4
         self.secondary_gpt.parts[2].last_lba = (current_extent * 4) + sector_count - 1
+
+        if len(self.primary_gpt.apm_parts) == 3:
+            self.primary_gpt.apm_parts[2].start_block = current_extent
+            self.primary_gpt.apm_parts[2].block_count = sector_count // 4
+            self.primary_gpt.apm_parts[2].data_count = sector_count // 4
